@@ -243,13 +243,6 @@ def WFVersion (v : VersionMsg) : Prop :=
    else v.nStartingHeight = none) ∧
   (if v.nVersion ≥ 70001 then v.fRelay < 256 else v.fRelay = 1)
 
-/-- where the library's `msg_ser` writes what the protocol prescribes: `msg_version.msg_ser` writes every
-    field whatever the protocol version, so below 70001 it emits a relay byte (and below 209 it cannot
-    serialise what `msg_deser` produced) — see `C18.version_lt_70001_payload` -/
-def serGate : Msg → Prop
-  | .version v => 70001 ≤ v.nVersion
-  | _ => True
-
 /-- the payload-level well-formedness of each message type -/
 def WFMsg : Msg → Prop
   | .version v => WFVersion v
@@ -293,8 +286,6 @@ instance decWFBlock18 : DecidablePred WFBlock := fun a => by unfold WFBlock; exa
 instance decWFMsg : DecidablePred WFMsg := fun m => by
   cases m <;> (unfold WFMsg; exact inferInstance)
 
-instance decSerGate : DecidablePred serGate := fun m => by
-  cases m <;> (unfold serGate; exact inferInstance)
 
 /-- what parsing yields: a transaction whose witness stacks are all empty comes back without
     witness entries (C01's `normTx`); every other field value is unchanged -/
